@@ -111,14 +111,26 @@ func VerifDNS(kv map[string]string) string {
 		}
 		return true, nil, errors.New("injected failure")
 	})
+	// the lister cache is refreshed the way an informer does it: only when the stored object changed since the last refresh (a write
+	// that failed leaves the cached object as it is, including anything the code under test did to it)
+	var seen *extdnsapi.DNSEndpoint
 	refresh := func() {
 		o, err := cl.ExternaldnsV1().DNSEndpoints("d").Get(context.Background(), "vs", metav1.GetOptions{})
+		if err != nil {
+			for _, x := range idx.List() {
+				_ = idx.Delete(x)
+			}
+			seen = nil
+			return
+		}
+		if seen != nil && reflect.DeepEqual(seen, o) && len(idx.List()) == 1 {
+			return
+		}
+		seen = o.DeepCopy()
 		for _, x := range idx.List() {
 			_ = idx.Delete(x)
 		}
-		if err == nil {
-			_ = idx.Add(o)
-		}
+		_ = idx.Add(o.DeepCopy())
 	}
 	writes := func(from int) []string {
 		var out []string
